@@ -17,7 +17,7 @@ RULE = ("one case = one random expression tree (depth <= 6) over {SigmaX, SigmaY
         "SWAP(A)} and scalars {0, +-1, 2, -3.5, 1e-9, 1e9, numpy.float64, True} using -x, x+y, x-y, s*x, x*s, s+x, x+s, s-x, "
         "x-s, evaluated on a random batch of a random state. Non-trivial: depth >= 2, >= 1 scalar and >= 2 leaves; distinct by "
         "the canonical string of the tree.")
-REQUIRED = ["trees_evaluated", "apply_vectors_compared", "statistics_dicts_compared", "rejections_observed",
+REQUIRED = ["reuse_on_second_state_checks", "trees_evaluated", "apply_vectors_compared", "statistics_dicts_compared", "rejections_observed",
             "ops_neg", "ops_add", "ops_sub", "ops_mul_left_scalar", "ops_mul_right_scalar", "ops_radd", "ops_rsub", "ops_add_scalar",
             "ops_sub_scalar"]
 ANCHOR_FILES = ["qucumber/observables/observable.py"]
@@ -171,6 +171,20 @@ def run_case(case, ctx):
                       f"the same arithmetic on its leaves gives {want[j]!r}", tags=tags, witness=wit)
     if not torch.equal(batch, keep):
         ctx.violation("batch-modified", "composite.apply modified the batch", tags=tags)
+    if case["rep"] % 2 == 0:
+        # history: the same composite object evaluated again on another batch of ANOTHER state
+        kind2 = gen.KINDS[(case["rep"] + 1) % 3]
+        am2, ph2 = gen.draw_model(rng, kind2, nv, 2, 1, scales=[0.3, 0.8])
+        st2 = gen.make_state(kind2, am2, ph2)
+        batch2 = torch.tensor(R.space(nv)[rng.integers(0, 2 ** nv, size=B)], dtype=torch.double)  # same shape: a shape-keyed cache is stale
+        want2, mag2 = interp(tree, st2, batch2, {})
+        got2 = ctx.lib("composite.apply(second state)", comp.apply, st2, batch2, tags=tags)
+        g2 = got2.detach().numpy().astype(float) if isinstance(got2, torch.Tensor) else np.full(want2.shape, float(got2))
+        g2 = np.broadcast_to(g2, want2.shape) if g2.shape == () else g2
+        ctx.count("reuse_on_second_state_checks")
+        if g2.shape != want2.shape or np.any(np.abs(g2 - want2) > 1e-12 * (mag2 + 1e-300) + 1e-300):
+            ctx.violation("composite-value", f"composite {canon[:200]} re-used on a second state/batch does not evaluate to the arithmetic "
+                          "on its leaves there", tags=dict(tags, reuse=True), witness=wit)
     sres = ctx.lib("composite.statistics_from_samples", comp.statistics_from_samples, st, batch, tags=tags)
     ctx.count("statistics_dicts_compared")
     wm = float(np.mean(want))
